@@ -18,7 +18,10 @@ Objs    == {"packet", "ack", "transfer", "calldata"}
 NameCls == {"plain", "dots", "brackets", "hash", "len3", "len64", "digits", "kwsequences", "kwcommitments", "kwreceipts", "kwacks", "kwnextseq"}
 ObjCases == [fam : {"obj"}, obj : Objs, s : StrCls, b : ByteCls, n : NumCls]
 KeyCases == [fam : {"key"}, src : NameCls, dst : NameCls, n : NumCls]
-Cases == ObjCases \cup KeyCases
+(* consensus-state keys of the client stores: written by the client keeper under the full height (revision, number) and *)
+(* read back by the light client's own ascending iterator (the one its pruning and upgrade code uses)                  *)
+ConsCases == [fam : {"cons"}, ty : {"tm", "bsc", "eth"}, rev : {"0", "1", "2p63"}, n : NumCls \ {"0"}]
+Cases == ObjCases \cup KeyCases \cup ConsCases
 (* decoding re-creates the value exactly for every valid UTF-8 string *)
 LossFree(x) == x.s # "invalidutf8"
 Init == c \in Cases
